@@ -115,7 +115,7 @@ def run(ctx):
             obs = observe(cfg, scitype, origin=[0, 5, -3][i % 3], fhvariant=i)
             ctx.evaluations += 1
             if obs != exp:
-                ctx.violation({"cfg": cfg, "scitype": scitype, "origin": [0, 5, -3][i % 3], "fhvariant": i % 3},
+                ctx.violation({"cfg": cfg, "scitype": scitype, "origin": [0, 5, -3][i % 3], "fhvariant": i % 60},
                               "spec->code (%s): expected %s observed %s"
                               % (scitype, canon(exp)[:260], canon(obs)[:260]))
         if not exp["rej"]:
@@ -131,7 +131,7 @@ def run(ctx):
         obs = observe(cfg, scitype, origin, t)
         ctx.evaluations += 1
         if "crash" in obs:
-            ctx.violation({"cfg": cfg, "scitype": scitype, "origin": origin, "fhvariant": t % 3}, "crash: " + obs["crash"])
+            ctx.violation({"cfg": cfg, "scitype": scitype, "origin": origin, "fhvariant": t % 60}, "crash: " + obs["crash"])
             continue
         recs.append({"tid": t, "cfg": cfg, "obs": obs, "scitype": scitype, "origin": origin})
         if not obs["rej"]:
@@ -141,7 +141,7 @@ def run(ctx):
     for rec in recs:
         if rec["tid"] in rejects:
             ctx.violation({"cfg": rec["cfg"], "scitype": rec["scitype"], "origin": rec["origin"],
-                           "fhvariant": rec["tid"] % 3},
+                           "fhvariant": rec["tid"] % 60},
                           "code->spec: TLC rejects recorded regressor calls, clause %s; observed %s"
                           % (rejects[rec["tid"]], canon(rec["obs"])[:300]))
     return ctx.finish(
